@@ -100,6 +100,16 @@ theorem gen_recognisers :
     focusRouteNorm = "ortho" ∧ unfocusRouteNorm = "ortho" ∧ xyGridIsFftrangeTimesDxAxis0IsY = true ∧
     richDataGridFromOwnShapeAndDx = true ∧ wavefrontViewsCarryOwnDx = true := by decide
 
+/-- no propagation function of this property, and neither executor, applies an in-place operation (augmented assignment,
+item assignment, `out=`, mutating method) to an array-like argument or to a name that may alias one (`np.asarray(shift)`,
+a view, ...): the field, shift, sample-count and `Q` objects the caller passes are still intact after the call, so a
+repeated call with the same objects sees the same arguments (AST scan of the current source, re-done every run) -/
+theorem gen_no_inplace_on_arguments :
+    ffsNoInPlaceOnArguments = true ∧ ufsNoInPlaceOnArguments = true ∧ ffsWrapNoInPlaceOnArguments = true ∧
+    ufsWrapNoInPlaceOnArguments = true ∧ focusNoInPlaceOnArguments = true ∧ unfocusNoInPlaceOnArguments = true ∧
+    mdftNoInPlaceOnArguments = true ∧ mdftInvNoInPlaceOnArguments = true ∧ mdftKeyNoInPlaceOnArguments = true ∧
+    cztNoInPlaceOnArguments = true ∧ cztInvNoInPlaceOnArguments = true := by decide
+
 /-- `fftrange(n)` starts at `-(n//2)` and has `n` samples: sample `l` has the FFT-aligned coordinate `l - n//2` -/
 theorem gen_grid (n : Int) : gridLo n = -(n / 2) ∧ gridHi n - gridLo n = n := by
   constructor <;> simp only [gridLo, gridHi] <;> omega
